@@ -396,9 +396,29 @@ def subspaces(tier):
     subs.append(('d:single-double-extended', from_groups(wide_float_items(tier), 500)))
     subs.append(('e:reservation-padding-layout', list(layout_cases())))
     subs.append(('f:packed-strings-per-argument', from_groups(packed_items())))
+    subs.append(('f:character-constants-and-oversize-literals', from_groups(charconst_items())))
     subs.append(('g:sub-unit-reservations', list(resv_cases())))
     subs.append(('g:sized-reservations', list(resvn_cases())))
     return subs
+
+
+def charconst_items():
+    """single-quoted character constants of 1..9 characters in every field width: up to four characters are one integer
+    (first character most significant), longer ones are strings and give one element per character, exactly like the
+    double-quoted form; float literals beyond the range of every format are rejected, not stored as infinity"""
+    its = []
+    for kw, w in (('db', 1), ('dw', 2), ('dd', 4), ('dq', 8)):
+        for n in range(1, 10 if w < 8 else 8):      # (an item has 64 bytes of room)
+            txt = 'ABCDEFGHI'[:n]
+            per = b''.join(bytes([c]).ljust(w, b'\0') for c in txt.encode())
+            its.append({'line': '\t%s "%s"' % (kw, txt), 'want': per.hex(), 'sig': '8086/%s/char-constants' % kw})
+            asint = int.from_bytes(txt.encode(), 'big').to_bytes(w, 'little').hex() if n <= min(w, 4) else None
+            its.append({'line': "\t%s '%s'" % (kw, txt), 'want': [per.hex()] + ([asint] if asint else []) if n > min(w, 4) or n == 1 else [asint],
+                        'sig': '8086/%s/char-constants' % kw})
+    for kw in ('dd', 'dq', 'dt'):
+        for lit in ('1.0e400', '1e309', '-1.0e400', '123456789.0e301', '1.0e5000'):
+            its.append({'line': '\t%s %s' % (kw, lit), 'want': 'ERR', 'sig': '8086/%s/float-literal-beyond-double' % kw})
+    return {'8086': its}
 
 
 def packed_items():
